@@ -67,6 +67,31 @@ where
     pub fn is_deep(&self) -> bool {
         matches!(self, Ex::D(_))
     }
+    /// the overloaded unary minus of deep expressions
+    pub fn neg_overloaded(&self) -> Option<ExResult<Self>> {
+        match self {
+            Ex::D(e) => Some((-e.clone()).map(Ex::D)),
+            Ex::F(_) => None,
+        }
+    }
+    /// named helper methods of deep expressions (cos(), exp(), sin(), ln())
+    pub fn helper(&self, name: &str) -> Option<ExResult<Self>> {
+        match self {
+            Ex::D(e) => {
+                let e = e.clone();
+                Some(
+                    match name {
+                        "cos" => e.cos(),
+                        "exp" => e.exp(),
+                        "sin" => e.sin(),
+                        _ => e.ln(),
+                    }
+                    .map(Ex::D),
+                )
+            }
+            Ex::F(_) => None,
+        }
+    }
     pub fn un(&self, name: &'static str) -> ExResult<Self> {
         Ok(match self {
             Ex::F(e) => Ex::F(e.clone().operate_unary(name)?),
